@@ -96,6 +96,7 @@ var variants = []variant{
 	{"link-rel-target-from-decoy-cwd", "other/sub", "{R}/links/lnrel", "link-rel-cwd"},
 	{"link-chain", "other", "{R}/ln2", "link-chain"},
 	{"link-chain-across-dirs", "other/sub", "{R}/chainA/deep/first", "link-chain"},
+	{"link-chain-descending", "other", "{R}/c1/first", "link-chain"},
 	{"link-to-link-abs-trailing-slash", "other", "{R}/lnslash", "link-chain"},
 	{"link-to-link-rel-trailing-slash", "other", "{R}/lnslashrel", "link-chain"},
 	{"link-abs-target-dot-segments", "other", "{R}/lndots", "link-chain"},
@@ -131,6 +132,9 @@ func setupArena(c Case) (r, src string, vars map[string]string, cleanup func(), 
 		{Path: "hop2", Kind: "symlink", Target: "src/zz-hop-target"},
 		{Path: "lndots2", Kind: "symlink", Target: "hop/../../src"},
 		{Path: "lndots3", Kind: "symlink", Target: "{R}/hop/../../src"},
+		{Path: "c1/first", Kind: "symlink", Target: "d/second"},
+		{Path: "c1/d/second", Kind: "symlink", Target: "t"},
+		{Path: "c1/d/t", Kind: "symlink", Target: "{R}/src"},
 		{Path: "lnslash", Kind: "symlink", Target: "{R}/lnabs/"},
 		{Path: "lnslashrel", Kind: "symlink", Target: "lnabs/"},
 		{Path: "lndots", Kind: "symlink", Target: "{R}/other/../lnabs/."},
